@@ -198,7 +198,26 @@ def native_names():
                         if isinstance(k, ast.Constant) and \
                                 isinstance(k.value, str):
                             names.append(k.value)
-    return sorted(set(names))
+    return sorted(set(names) | set(KNOWN_NATIVES))
+
+
+# the native names at the time the check was written: used in addition to
+# the names extracted from the binder's source, so that a refactoring of the
+# binder cannot make the enumeration vacuous
+KNOWN_NATIVES = """acos add append asin atan atan2 bind_native bit_and bit_or
+bit_not bit_xor bit_rotate_left bit_rotate_right bit_shift_left
+bit_shift_right body boolean ceiling chr close compare contains cos date
+decimal delete_at div ends_with equals escape_pattern eval execute exp
+file_input file_copy file_delete file_exists file_info file_move file_output
+find find_last floor format_date get_env get_output_string greater
+greater_equals identity if_empty if_null if_null_or_empty info insert_at int
+is_empty is_not_empty is_not_null is_null length less less_equals list
+list_dir log lower ls make_dir map matches mod mul not_equals object ord
+parse parse_date parse_json pattern pow print println process_lines put
+random range read read_all readln remove round s set set_seed sin sorted
+split split2 sqrt str_input starts_with str_output string sub sublist substr
+sum tan timestamp trim type upper zip zip_map E PI PS LS FS OS_NAME
+OS_VERSION OS_ARCH run""".split()
 
 
 FLAG = "checkerlang_secure_mode"
